@@ -112,6 +112,70 @@ def fan_scenario(w, nbuilds, sched):
     return L
 
 
+def directed_corpus():
+    """Directed histories that run first, under every schedule."""
+    return [
+        # an observing root is re-run for its OWN reason (invalid value) in an incremental build; its request for 2 is paused while 2 is
+        # dependency-scanned, and the late request for 3 (issued from provideValue) makes the engine scan another rule afterwards: any state
+        # left in a recycled scan record re-delivers the first input (seeded change C06-1)
+        ["db 0", "rule 0 sig=0 obs=1", "rule 1 sig=0 obs=1", "rule 2 sig=0 obs=0 req=0", "rule 3 sig=0 obs=0 req=1", "rule 5 sig=0 obs=1 req=2 br=0:3:3",
+         "set 0 1", "set 1 1", "set 5 1", "build 5", "set 5 2", "build 5", "set 5 3", "set 0 2", "build 5"],
+        ["db 1", "rule 0 sig=0 obs=1", "rule 1 sig=0 obs=1", "rule 2 sig=0 obs=0 req=0", "rule 3 sig=0 obs=0 req=1,2", "rule 4 sig=0 obs=0 req=0 follow=1",
+         "rule 5 sig=0 obs=1 req=2,4 br=1:3:3", "set 0 1", "set 1 1", "set 5 1", "build 5", "set 5 2", "restart", "build 5", "rule 5 sig=1 obs=1 req=2,4 br=0:3:4",
+         "restart", "build 5", "set 5 4", "build 5"],
+    ]
+
+
+def rescan_history(rng):
+    """Family of the shape above: observing inputs, derived middle rules with recorded dependencies, an OBSERVING derived root whose branch
+    keys are derived rules; the root alone is invalidated between builds (sometimes with an input flip, a signature edit or a restart over
+    the database), so that in incremental builds its requests are paused on dependency scans and late requests follow."""
+    ni, nm = rng.randint(2, 3), rng.randint(2, 5)
+    L = ["db %d" % (1 if rng.random() < 0.5 else 0)] + ["rule %d sig=0 obs=1" % i for i in range(ni)]
+    mids = list(range(ni, ni + nm))
+    for k in mids:
+        lower = list(range(k))
+        req = rng.sample(lower, rng.randint(1, min(2, len(lower))))
+        rest = [x for x in lower if x not in req]
+        extra = (" follow=%d" % rng.choice(rest)) if rest and rng.random() < 0.25 else ""
+        L.append("rule %d sig=0 obs=0 req=%s%s" % (k, ",".join(map(str, req)), extra))
+    root = ni + nm
+    req = rng.sample(mids, rng.randint(1, min(2, nm - 1)))
+    rest = [x for x in mids if x not in req]
+    a = rng.sample(rest, rng.randint(1, min(2, len(rest))))
+    b = rng.sample(rest, rng.randint(1, min(2, len(rest))))
+    rootdef = lambda sg: "rule %d sig=%d obs=1 req=%s br=%d:%s:%s" % (root, sg, ",".join(map(str, req)), rng.randrange(len(req)), ",".join(map(str, a)), ",".join(map(str, b)))
+    L.append(rootdef(0))
+    for i in range(ni):
+        L.append("set %d %d" % (i, rng.randint(0, 5)))
+    stamp, sg = 1, 0
+    L += ["set %d %d" % (root, stamp), "build %d" % root]
+    for _ in range(rng.randint(2, 4)):
+        x = rng.random()
+        if x < 0.6:
+            stamp += 1; L.append("set %d %d" % (root, stamp))
+        elif x < 0.8:
+            sg += 1; L += [rootdef(sg), "restart"]
+        else:
+            stamp += 1; L += ["set %d %d" % (root, stamp), "restart"]
+        if rng.random() < 0.3:
+            L.append("set %d %d" % (rng.randrange(ni), rng.randint(0, 5)))
+        L.append("build %d" % root)
+    return L
+
+
+def cancel_fan_scenario(rng, w, nbuilds):
+    """w independent leaves under one root, completions spread over [0, maxus) us from racing threads, cancellation from a foreign thread
+    0-150 us after build() started: the drain loop of cancelRemainingTasks is entered with several tasks still computing, which then report
+    one after the other (seeded change C06-2: only a completion that finds the queue empty notifies)."""
+    L = ["db 0"] + ["rule %d sig=0 obs=0" % i for i in range(w)]
+    L += ["rule %d sig=0 obs=0 req=%s" % (w, ",".join(map(str, range(w))))]
+    seed0 = rng.randrange(1 << 20)
+    for b in range(nbuilds):
+        L += ["restart", "build %d sched=threads:%d:%d cancel=thread:%d" % (w, seed0 + b, rng.choice([400, 1200, 3000]), rng.choice([0, 0, 10, 30, 50, 150]))]
+    return L
+
+
 # ------------------------------------------------------------------ observations
 
 def norm_line(x):
@@ -292,9 +356,40 @@ def handshake_labels(b, defer):
 
 # ------------------------------------------------------------------ the check
 
-def run_variant(drv, lines, wd, name, timeout=60, env=None):
-    rc, out, err, sp, tp = enginelib.run_impl(drv, lines, wd, timeout=timeout, env=env, name=name)
-    return dict(rc=rc, out=out, err=err, sp=sp, tp=tp, lines=lines)
+def run_variant(drv, lines, wd, name, timeout=60, env=None, stall_s=None):
+    """Run the driver on a scenario.  With stall_s: a HANG is a live driver whose output has not grown for stall_s seconds (rc=-9,
+    hung=True); running out of the `timeout` budget while still printing is rc=-9, hung=False (slow machine, no finding)."""
+    if stall_s is None:
+        rc, out, err, sp, tp = enginelib.run_impl(drv, lines, wd, timeout=timeout, env=env, name=name)
+        return dict(rc=rc, out=out, err=err, sp=sp, tp=tp, lines=lines, hung=(rc == -9))
+    import subprocess
+    os.makedirs(wd, exist_ok=True)
+    sp, tp, ep = os.path.join(wd, name + ".txt"), os.path.join(wd, name + ".impl.txt"), os.path.join(wd, name + ".err.txt")
+    open(sp, "w").write("\n".join(lines) + "\n")
+    for f in ("build.db", "build.db-journal"):
+        try:
+            os.unlink(os.path.join(wd, f))
+        except OSError:
+            pass
+    p = subprocess.Popen([drv, sp, wd], stdout=open(tp, "w"), stderr=open(ep, "w"), env=env)
+    t0 = last = time.time()
+    size, hung, rc = 0, False, None
+    while True:
+        try:
+            rc = p.wait(timeout=0.05 if time.time() - t0 < 1 else 0.25)
+            break
+        except subprocess.TimeoutExpired:
+            pass
+        now = time.time()
+        sz = os.path.getsize(tp)
+        if sz != size:
+            size, last = sz, now
+        elif now - last >= stall_s:
+            hung = True
+        if hung or (now - t0 >= timeout and now - last < 1.0):
+            p.kill(); p.wait(); rc = -9
+            break
+    return dict(rc=rc, out=open(tp).read().splitlines(), err=open(ep).read(), sp=sp, tp=tp, lines=lines, hung=hung)
 
 
 def first_diff(a, b):
@@ -404,15 +499,18 @@ def stress(chk, ctx, drv, variant, scen_list, timeout, env=None):
     n_builds = 0
     for name, lines, sync_lines in scen_list:
         wd = os.path.join(ctx["root"], "stress-%s-%s" % (variant, name))
-        r = run_variant(drv, lines, wd, "scenario", timeout=timeout, env=env)
+        r = run_variant(drv, lines, wd, "scenario", timeout=timeout, env=env, stall_s=15)
         builds = real_builds(r["out"])
         n_builds += len(builds)
         chk.count(("stress", variant, name), n=max(1, len(builds)))
         if ctx.get("hang") and variant != "tsan":
             break
+        if r["rc"] == -9 and not r["hung"]:
+            chk.notes.setdefault("slow_runs", []).append("%s/%s ran out of its %ds budget while still making progress (%d builds done); not a finding" % (variant, name, timeout, len(builds)))
+            continue
         if r["rc"] == -9:
             ctx["hang"] = True
-            chk.violation("engine-hang", "build() did not return within %ds in a racing-thread scenario (%s, %s build): lost wake-up or deadlock; %d builds had finished" % (timeout, name, variant, len([b for b in builds if b["result"]])),
+            chk.violation("engine-hang", "build() did not return in a racing-thread scenario (%s, %s build): the driver printed nothing for 15 s after %d finished builds; lost wake-up or deadlock (budget %ds)" % (name, variant, len([b for b in builds if b["result"]]), timeout),
                           dict(scenario=lines, variant=variant, builds_finished=len([b for b in builds if b["result"]])), found_input=True,
                           broken="c06 oracle (build returns) on implementation")
             continue
@@ -571,6 +669,8 @@ def thread_scenarios(chk, rng, quick_n, thorough_n, with_cancel=True):
             m = mu()
             L = chain_scenario(n, chk.n(8, 25), lambda b: " sched=threads:%d:%d cancel=thread:%d" % (seed0 + b, m, rng.choice([0, 50, 400, 2000, 6000])))
             out.append(("cancelchain%d" % i, L))
+        for i in range(chk.n(4, 20)):
+            out.append(("cancelfan%d" % i, cancel_fan_scenario(rng, rng.randint(4, 12), rng.randint(20, 40))))
     return out
 
 
@@ -612,6 +712,22 @@ def run_in(chk, drv, model, emodel, root):
         if a != want:
             chk.violation("extracted-model-sanity", "the extracted model answers %r to %r, expected %r" % (a, q, want), dict(request=q, answer=a, expected=want),
                           found_input=False, broken="extraction / ocaml/vmodel_handshake.ml")
+
+    # ---- directed corpus + the "re-run root with late requests for rules that still need a scan" family, first, under every schedule
+    t0 = time.time()
+    corpus = directed_corpus() + [rescan_history(rng) for _ in range(chk.n(10, 80))]
+    for h, base in enumerate(corpus):
+        ctx["hid"] = "d%d" % h
+        seeds = [rng.randrange(1 << 16) for _ in range(5)]
+        scheds = [("sync", lambda i: None)]
+        scheds += [("defer:%d" % s, (lambda s: lambda i: "defer:%d" % (s + i))(s)) for s in seeds[:2]]
+        scheds += [("mixed:%d" % seeds[2], (lambda s: lambda i: "mixed:%d" % (s + i))(seeds[2]))]
+        scheds += [("threads:%d" % seeds[3], (lambda s: lambda i: "threads:%d" % (s + i))(seeds[3])),
+                   ("threads:%d:20" % seeds[4], (lambda s: lambda i: "threads:%d:20" % (s + i))(seeds[4]))]
+        check_history(chk, ctx, base, scheds, "d%d" % h)
+        if ctx.get("hang"):
+            break
+    t_corpus = time.time() - t0
 
     # ---- (b)+(c) generated histories under every schedule
     t0 = time.time()
@@ -711,7 +827,7 @@ def run_in(chk, drv, model, emodel, root):
     chk.cov.update(dict(histories=nh, small_graphs=ns, small_graph_orders=small_stats[:10], distinct_completion_orders=len(ctx["orders"]),
                         task_sequences_through_extracted_automaton=ctx["proto_checked"], builds_replayed_on_handshake_model=ctx["hs_checked"],
                         spec_model_runs=ctx["model_runs"], spec_model_disagreements=len(ctx["model_disagreements"]),
-                        stress_builds=nstress, hunt_builds=hunt_builds, tsan_builds=tsan_builds, seconds=dict(histories=round(t_gen, 1), small=round(t_small, 1), stress=round(t_stress, 1), hunt=t_hunt)))
+                        stress_builds=nstress, hunt_builds=hunt_builds, tsan_builds=tsan_builds, directed_and_rescan_histories=len(corpus), seconds=dict(corpus=round(t_corpus, 1), histories=round(t_gen, 1), small=round(t_small, 1), stress=round(t_stress, 1), hunt=t_hunt)))
     chk.notes["partial"] = ("PARTIAL - data races are sampled under ThreadSanitizer (thorough tier), not proved; the handshake logic (any number of completer "
                             "threads, any interleaving) and the protocol automaton are proved; schedule independence of values is sampled on the implementation "
                             "and tied to the specification engine by the differential")
